@@ -9,7 +9,7 @@ for d in benign/*.diff; do
   git -C /repo apply "/verif/$d" || { echo "$(basename $d): patch does not apply"; continue; }
   bad=""
   for p in $ids; do
-    out=$(./check "$p" 2>&1); rc=$?
+    out=$(./check "$p" --noevidence 2>&1); rc=$?
     if [ $rc -ne 0 ]; then bad="$bad $p(rc=$rc: $(echo "$out" | grep -E -m1 'VIOLATION|UNDECIDED' | sed 's/replay=[^ ]*//' | cut -c1-160))"; fi
   done
   git -C /repo checkout -- .
